@@ -98,7 +98,7 @@ class Prop(PropBase):
         return '\n'.join(lines)
 
     def generate(self, rng, tier):
-        base = 21000 + (os.getpid() * 29) % 20000
+        base = 12000 + (os.getpid() % 16) * 100      # a port block of this property only, below the ephemeral range
         self.feats = {}
         n = 6 if tier == 'quick' else 60
         hs = []
